@@ -98,7 +98,7 @@ CostRow(et, kind, v) ==     \* the row the user enters with create_poly_cost / c
   [kind |-> IF kind = "none" THEN "none" ELSE IF kind \in PwlKinds THEN "pwl" ELSE "poly",
    c2 |-> IF kind \in QuadKinds THEN C2Quad(et, v) ELSE 0,
    c1 |-> IF kind \in QuadKinds THEN C1Quad(et, v) ELSE IF kind \in PolyKinds THEN C1Lin(et, v) ELSE 0,
-   c0 |-> IF kind \in {"lin0", "quad0", "linq", "quadq"} THEN C0Of(et) ELSE 0,
+   c0 |-> IF kind \in {"lin0", "quad0"} THEN C0Of(et) ELSE 0,
    q2 |-> IF kind = "quadq" THEN CQ2Of(et) ELSE 0,
    q1 |-> IF kind \in QKinds THEN CQ1Of(et) ELSE 0,
    q0 |-> IF kind \in QKinds THEN CQ0Of(et) ELSE 0,
@@ -132,16 +132,21 @@ Valid(cfg) ==
   /\ \A e \in Et : (cfg.kind[e] \in QKinds => e \in {"gen", "sgen", "load"})
   /\ (cfg.dcl = 0 => cfg.kind["dcline"] = "none")
 
+ElOf(cfg, e) ==    \* limits, set points and flags of element e
+  [present |-> Present(cfg, e), ctrl |-> IF e \in Flex THEN cfg.ctrl[e] ELSE IF e = "ext_grid" THEN cfg.egc ELSE TRUE,
+   pmin |-> PLim(e, cfg.plim)[1], pmax |-> PLim(e, cfg.plim)[2], qmin |-> QLim(e, cfg.qlim)[1], qmax |-> QLim(e, cfg.qlim)[2],
+   pset |-> PSet(e), qset |-> QSet(e), vset |-> VSet(e), bus |-> BusOf(e)]
+CostRowOf(cfg, e) == CostRow(e, cfg.kind[e], cfg.var)
+\* all six rows as a record (built once where it is bound by LET; TLC evaluates a function constructor lazily per application)
+RowsOf(cfg) == [ext_grid |-> CostRowOf(cfg, "ext_grid"), gen |-> CostRowOf(cfg, "gen"), sgen |-> CostRowOf(cfg, "sgen"),
+                load |-> CostRowOf(cfg, "load"), storage |-> CostRowOf(cfg, "storage"), dcline |-> CostRowOf(cfg, "dcline")]
 Inst(cfg) ==   \* the concrete network data of a configuration; the harness builds the pandapower net from this record
   [vmin |-> VBand(cfg.vband)[1], vmax |-> VBand(cfg.vband)[2], basep |-> BaseP, baseq |-> BaseQ,
    ac |-> cfg.ac, opts |-> cfg.opts, mesh |-> cfg.mesh, dcl |-> cfg.dcl,
    loss_percent |-> DclLossPercent(cfg.dcl), loss_kw |-> DclLossKw(cfg.dcl),
    maxload |-> [br \in Branches |-> MaxLoading(br, cfg.rate)],
-   el |-> [e \in Et |-> [present |-> Present(cfg, e), ctrl |-> IF e \in Flex THEN cfg.ctrl[e] ELSE IF e = "ext_grid" THEN cfg.egc ELSE TRUE,
-                         pmin |-> PLim(e, cfg.plim)[1], pmax |-> PLim(e, cfg.plim)[2],
-                         qmin |-> QLim(e, cfg.qlim)[1], qmax |-> QLim(e, cfg.qlim)[2],
-                         pset |-> PSet(e), qset |-> QSet(e), vset |-> VSet(e), bus |-> BusOf(e)]],
-   cost |-> [e \in Et |-> CostRow(e, cfg.kind[e], cfg.var)]]
+   el |-> [e \in Et |-> ElOf(cfg, e)],
+   cost |-> RowsOf(cfg)]
 
 -----------------------------------------------------------------------------
 (* Cost functions on the integer grid (EUR, MW).  User side.                                                           *)
@@ -193,15 +198,16 @@ PRange(cfg, e) == PLim(e, cfg.plim)[1]..PLim(e, cfg.plim)[2]
 QRange(cfg, e) == QLim(e, cfg.qlim)[1]..QLim(e, cfg.qlim)[2]
 \* deviation classes of the transcribed objective from the user's function, on the integer grid of the element's range
 DevClasses(cfg) ==
-  LET rows == Inst(cfg).cost
-      pdev(e) == \E p \in PRange(cfg, e) : CodeRowP(rows[e], e, AnyPwl(cfg), p) # UserRowP(rows[e], p)
-      qdev(e) == \E q \in QRange(cfg, e) : CodeRowQ(rows[e], e, q) # UserRowQ(rows[e], q)
+  LET rows == RowsOf(cfg)
+      pwl == AnyPwl(cfg)
+      pd == {e \in Costed(cfg) : \E p \in PRange(cfg, e) : CodeRowP(rows[e], e, pwl, p) # UserRowP(rows[e], p)}
+      qd == {e \in Costed(cfg) : \E q \in QRange(cfg, e) : CodeRowQ(rows[e], e, q) # UserRowQ(rows[e], q)}
   IN  {x \in {"inverted_poly_c2_c0", "poly_c0_dropped_next_to_pwl", "inverted_qpoly_c2_c0", "other_p", "other_q"} :
-         \/ x = "inverted_poly_c2_c0" /\ \E e \in Costed(cfg) : pdev(e) /\ ~AnyPwl(cfg) /\ Inverted(e) /\ rows[e].kind = "poly"
-         \/ x = "poly_c0_dropped_next_to_pwl" /\ \E e \in Costed(cfg) : pdev(e) /\ AnyPwl(cfg) /\ rows[e].kind = "poly"
-         \/ x = "inverted_qpoly_c2_c0" /\ \E e \in Costed(cfg) : qdev(e) /\ Inverted(e)
-         \/ x = "other_p" /\ \E e \in Costed(cfg) : pdev(e) /\ ~(rows[e].kind = "poly" /\ (AnyPwl(cfg) \/ Inverted(e)))
-         \/ x = "other_q" /\ \E e \in Costed(cfg) : qdev(e) /\ ~Inverted(e)}
+         \/ x = "inverted_poly_c2_c0" /\ \E e \in pd : ~pwl /\ Inverted(e) /\ rows[e].kind = "poly"
+         \/ x = "poly_c0_dropped_next_to_pwl" /\ \E e \in pd : pwl /\ rows[e].kind = "poly"
+         \/ x = "inverted_qpoly_c2_c0" /\ \E e \in qd : Inverted(e)
+         \/ x = "other_p" /\ \E e \in pd : ~(rows[e].kind = "poly" /\ (pwl \/ Inverted(e)))
+         \/ x = "other_q" /\ \E e \in qd : ~Inverted(e)}
 
 -----------------------------------------------------------------------------
 (* DC OPF on the RADIAL template is a transshipment problem: lossless, every branch flow is the sum of the injections    *)
@@ -225,7 +231,7 @@ SumSet(f, S) == IF S = {} THEN 0 ELSE LET x == CHOOSE y \in S : TRUE IN f[x] + S
 \* user cost of a grid dispatch: the sum over the cost rows (a "none" row contributes 0), ext_grid at the balance power
 GridCostR(rows, d) == UserRowP(rows["ext_grid"], PExt(d)) + UserRowP(rows["gen"], d.gen) + UserRowP(rows["sgen"], d.sgen)
                       + UserRowP(rows["load"], d.load) + UserRowP(rows["storage"], d.storage) + UserRowP(rows["dcline"], d.dcline)
-GridCost(cfg, d) == GridCostR(Inst(cfg).cost, d)
+GridCost(cfg, d) == GridCostR(RowsOf(cfg), d)
 GridApplicable(cfg) == ~cfg.ac /\ ~cfg.mesh /\ cfg.dcl # 2 /\ ~AnyQCost(cfg)
 GridExact(cfg) == GridApplicable(cfg) /\ ~AnyQuad(cfg)
 \* The brute force itself, written for TLC's interpreter: per element the row's cost over its integer range is tabulated
@@ -233,7 +239,7 @@ GridExact(cfg) == GridApplicable(cfg) /\ ~AnyQuad(cfg)
 RECURSIVE TabFrom(_, _, _)
 TabFrom(row, p, hi) == IF p > hi THEN <<>> ELSE <<UserRowP(row, p)>> \o TabFrom(row, p + 1, hi)
 FeasibleCosts(cfg) ==
-  LET rows == Inst(cfg).cost
+  LET rows == RowsOf(cfg)
       elo == PLim("ext_grid", cfg.plim)[1]     ehi == PLim("ext_grid", cfg.plim)[2]
       cT == Cap("T", cfg.rate)   cA == Cap("A", cfg.rate)   cB == Cap("B", cfg.rate)
       lo(e) == SetMin(DRange(cfg, e))
@@ -250,7 +256,7 @@ FeasibleCosts(cfg) ==
 NoOpt == 1000000000                                                 \* "no feasible grid point"
 GridOpt(cfg) == LET fc == FeasibleCosts(cfg) IN IF fc = {} THEN NoOpt ELSE SetMin(fc)
 \* bound on |cost| over the whole box, for the fixed-point range (model invariant CostInRange)
-RowAbsBound(cfg, e) == LET row == Inst(cfg).cost[e]
+RowAbsBound(cfg, e) == LET row == CostRowOf(cfg, e)
                            pm == SetMax({Abs(x) : x \in PRange(cfg, e)})
                            qm == SetMax({Abs(x) : x \in QRange(cfg, e)})
                        IN  IF row.kind = "poly" THEN row.c2 * pm * pm + Abs(row.c1) * pm + row.c0 + row.q2 * qm * qm + Abs(row.q1) * qm + row.q0
